@@ -280,7 +280,7 @@ func genC12(t *rapid.T) *Bundle {
 	}
 	g := &c12Gen{t: t, root: root}
 	T, U := root+"t", root+"u"
-	shape := g.pick("shape", "plain", "plain", "where", "order_total", "order_ties", "limit", "distinct", "group", "whole_agg", "join", "pjoin", "derived", "cte", "cte_direct", "dual", "union", "slice", "alias", "star", "nested_from", "group_star", "in_subquery", "having", "cte_col", "cte_twice", "offset_window")
+	shape := g.pick("shape", "plain", "plain", "where", "order_total", "order_ties", "limit", "distinct", "group", "whole_agg", "join", "pjoin", "derived", "cte", "cte_direct", "dual", "union", "slice", "alias", "star", "nested_from", "group_star", "in_subquery", "having", "cte_col", "cte_twice", "offset_window", "join_into", "join_into", "join_unaliased")
 	seq := true
 	var q string
 	switch shape {
@@ -321,6 +321,17 @@ func genC12(t *rapid.T) *Bundle {
 			sel = g.items("x.", true)
 		}
 		q = fmt.Sprintf("SELECT %s FROM %s x %s %s y ON x.id %s y.id", sel, T, jt, U, op)
+		seq = false
+	case "join_into":
+		jt := g.pick("jt_into", "JOIN", "LEFT JOIN", "RIGHT JOIN", "HASH_JOIN", "LEFT HASH_JOIN", "PARALLEL LEFT JOIN", "PARALLEL JOIN")
+		op := "="
+		if !strings.Contains(jt, "HASH") {
+			op = g.pick("jop_into", "=", "<", ">=", "!=", "<=")
+		}
+		q = fmt.Sprintf("SELECT * FROM %s x %s %s y ON x.id %s y.id INTO j", T, jt, U, op)
+		seq = false
+	case "join_unaliased":
+		q = fmt.Sprintf("SELECT * FROM %s %s %s y ON id %s y.id", T, g.pick("jt_un", "LEFT JOIN", "JOIN", "PARALLEL LEFT JOIN"), U, g.pick("jop_un", "=", "<", ">="))
 		seq = false
 	case "derived":
 		q = fmt.Sprintf("SELECT * FROM (SELECT %s FROM %s) d", g.items("", true), T)
